@@ -394,7 +394,11 @@ pub fn worker(args: &[String]) -> ! {
     let p = unsafe { libc::mmap(std::ptr::null_mut(), 16, libc::PROT_READ | libc::PROT_WRITE, libc::MAP_SHARED, f.as_raw_fd(), 0) };
     assert!(p != libc::MAP_FAILED);
     alloc::PROGRESS.store(p as usize, std::sync::atomic::Ordering::SeqCst);
+    // "still starting": building the case list takes a while in the thorough tier, longer on a loaded machine;
+    // the driver's no-progress watchdog must not take that for a hang of case 0
+    unsafe { std::ptr::write_volatile((p as *mut u64).add(1), u64::MAX) };
     let list = cases(&parser, quick);
+    unsafe { std::ptr::write_volatile((p as *mut u64).add(1), 0) };
     let mut s = Stats::default();
     for idx in start..end.min(list.len()) {
         let (fam, input) = &list[idx];
@@ -430,10 +434,12 @@ fn spawn_worker(parser: &str, start: usize, end: usize, tier: &str, scratch: &st
             if *d2.lock().unwrap() {
                 return false;
             }
-            let cur = std::fs::read(&pf2).ok().map(|b| u64::from_le_bytes(b[..8].try_into().unwrap())).unwrap_or(0);
+            let rec = std::fs::read(&pf2).unwrap_or_default();
+            let cur = rec.get(..8).map(|b| u64::from_le_bytes(b.try_into().unwrap())).unwrap_or(0);
+            let starting = rec.get(8..16).map(|b| u64::from_le_bytes(b.try_into().unwrap())) == Some(u64::MAX);
             if cur != last.0 {
                 last = (cur, std::time::Instant::now());
-            } else if last.1.elapsed().as_secs() >= 20 {
+            } else if last.1.elapsed().as_secs() >= if starting { 1800 } else { 20 } {
                 unsafe {
                     libc::kill(pid as i32, libc::SIGKILL);
                 }
